@@ -109,9 +109,13 @@ where
         let delay = (self.duration_selector)(&value);
         if self.edge.leading {
           // delivered on the leading edge: it must not come a second time as
-          // this window's trailing value
-          self.trailing_value.rc_deref_mut().take();
-          self.observer.next(value)
+          // this window's trailing value. If the value stored above is gone,
+          // the previous window's task (running on another thread) has just
+          // delivered it on its trailing edge: not a second time here either.
+          let taken = self.trailing_value.rc_deref_mut().take();
+          if !self.edge.tailing || taken.is_some() {
+            self.observer.next(value)
+          }
         }
         let task = OnceTask::new(
           throttle_task,
